@@ -506,13 +506,14 @@ def audit(ctx, extra_modules=()):
     return ok and not missing
 
 
-def coqchk(ctx):
-    """Thorough tier: re-check the property's compiled closure with the independent checker and compare the
-    axioms it reports with the allow-list."""
+def coqchk(ctx, module=None):
+    """Thorough tier: re-check the property's compiled closure (or the closure of a tie module) with the independent checker
+    and compare the axioms it reports with the allow-list."""
+    module = module or "TC.Properties.%s" % ctx.pid
     with Lock("coq"):
-        rc, out = run(["coqchk", "-o", "-silent", "-Q", COQ, "TC", "TC.Properties.%s" % ctx.pid], timeout=3000, cwd=COQ)
+        rc, out = run(["coqchk", "-o", "-silent", "-Q", COQ, "TC", module], timeout=3000, cwd=COQ)
     if rc != 0:
-        ctx.broken.append("coqchk rejected the compiled closure of Properties/%s.vo:\n%s" % (ctx.pid, "\n".join(out.splitlines()[-12:])))
+        ctx.broken.append("coqchk rejected the compiled closure of %s:\n%s" % (module, "\n".join(out.splitlines()[-12:])))
         return False
     ax = []
     m = re.search(r"\* Axioms:(.*?)(?:\n\* |\Z)", out, re.S)
@@ -521,9 +522,9 @@ def coqchk(ctx):
     short = [a.split(".")[-1] for a in ax]
     allow_short = set(a.split(".")[-1] for a in AXIOM_ALLOW)
     bad = [a for a, sh in zip(ax, short) if sh not in allow_short]
-    ctx.coverage["coqchk"] = {"ok": True, "axioms": ax}
+    ctx.coverage["coqchk" if module.startswith("TC.Properties.") else "coqchk " + module] = {"ok": True, "axioms": ax}
     if bad:
-        ctx.broken.append("coqchk: the compiled closure of Properties/%s.vo depends on axioms outside the allow-list: %s" % (ctx.pid, ", ".join(bad)))
+        ctx.broken.append("coqchk: the compiled closure of %s depends on axioms outside the allow-list: %s" % (module, ", ".join(bad)))
         return False
     return True
 
